@@ -155,7 +155,7 @@ theorem identify_fields (env : Env) (hH : env.H.WellSized) (cfg : Cfg) (req : Re
       have hlen2 := issuedValue_length env hH _ req.clock cfg.secret u tl d2 hclk hd2
       have hfilter : (splitAll ',' p.tokens).filter (!·.isEmpty) = tl := by
         rw [ht, splitAll_joined tl htl1, tokensBack_filter tl htl1]
-      have hrem : remember env cfg req st (normUid u) cfg.maxAge
+      have hrem : remember env cfg req st true (normUid u) cfg.maxAge
           (((splitAll ',' p.tokens).filter (!·.isEmpty)).map .str) =
           (.ok [ticketCookie cfg req (issuedValue d2 u tl req.clock) cfg.maxAge], st) := by
         rw [hfilter]
@@ -165,7 +165,7 @@ theorem identify_fields (env : Env) (hH : env.H.WellSized) (cfg : Cfg) (req : Re
         have hnot : ¬ ((wire d2 req.clock (encodeUserid u).2 (List.intercalate [','] tl)
             (userIdTypePrefix ++ (encodeUserid u).1)).length > 4093) := by
           simp only [issuedValue] at hlen2; omega
-        simp [getCookies, hnot, hnr, ticketCookie, issuedValue, pure, Except.pure]
+        simp [getCookies, hnot, ticketCookie, issuedValue, pure, Except.pure]
         exact ⟨rfl, rfl⟩
       rw [identify_reissue env cfg req st c p (normUid u) hc hp he hdec hr _ _ hrem, hfilter, hd]
 
@@ -176,8 +176,8 @@ carries one cookie -/
 def StInv (st : St) : Prop :=
   (st.reissued = false → st.callbacks = []) ∧ st.callbacks.length ≤ 1 ∧ ∀ hs ∈ st.callbacks, hs.length = 1
 
-theorem remember_state (env : Env) (cfg : Cfg) (req : Req) (st : St) (u : UserId) (ma : Option Nat) (toks : List Tok) :
-    let st' := (remember env cfg req st u ma toks).2
+theorem remember_state (env : Env) (cfg : Cfg) (req : Req) (st : St) (internal : Bool) (u : UserId) (ma : Option Nat) (toks : List Tok) :
+    let st' := (remember env cfg req st internal u ma toks).2
     st'.reissued = st.reissued ∧ st'.callbacks = st.callbacks ∧ (st.revoked = true → st'.revoked = true) := by
   unfold remember
   simp only
@@ -186,11 +186,11 @@ theorem remember_state (env : Env) (cfg : Cfg) (req : Req) (st : St) (u : UserId
   | ok tl =>
     simp only
     cases cookieValue env cfg.secret (encodeUserid u).2 (remoteAddr cfg req) tl (userIdTypePrefix ++ (encodeUserid u).1) req.clock with
-    | error e => by_cases h : st.reissued = true <;> simp [h]
-    | ok v => by_cases h : st.reissued = true <;> simp [h]
+    | error e => cases internal <;> simp
+    | ok v => cases internal <;> simp
 
-theorem remember_ok_length {env : Env} {cfg : Cfg} {req : Req} {st st' : St} {u : UserId} {ma : Option Nat}
-    {toks : List Tok} {cs : List SetCookie} (h : remember env cfg req st u ma toks = (.ok cs, st')) : cs.length = 1 := by
+theorem remember_ok_length {env : Env} {cfg : Cfg} {req : Req} {st st' : St} {internal : Bool} {u : UserId} {ma : Option Nat}
+    {toks : List Tok} {cs : List SetCookie} (h : remember env cfg req st internal u ma toks = (.ok cs, st')) : cs.length = 1 := by
   obtain ⟨tl, d, _, _, _, hcs, _⟩ := remember_ok_inv h
   rw [hcs]; rfl
 
@@ -222,10 +222,10 @@ theorem identify_inv (env : Env) (cfg : Cfg) (req : Req) (st : St) (h : StInv st
                 cases hrt : cfg.reissueTime with
                 | none => simp [hrt] at hdue
                 | some rt => simp [hrt] at hdue; exact hdue.1
-              have hs := remember_state env cfg req st userid cfg.maxAge
+              have hs := remember_state env cfg req st true userid cfg.maxAge
                 (((splitAll ',' p.tokens).filter (!·.isEmpty)).map .str)
               simp only at hs
-              cases hrem : remember env cfg req st userid cfg.maxAge
+              cases hrem : remember env cfg req st true userid cfg.maxAge
                   (((splitAll ',' p.tokens).filter (!·.isEmpty)).map .str) with
               | mk r st' =>
                 rw [hrem] at hs
@@ -256,7 +256,7 @@ theorem step_inv (env : Env) (cfg : Cfg) (req : Req) (st : St) (op : Op) (h : St
   cases op with
   | identify => exact identify_inv env cfg req st h
   | remember u m t =>
-    have hs := remember_state env cfg req st u m t
+    have hs := remember_state env cfg req st false u m t
     simp only at hs
     simp only [step]
     refine ⟨⟨?_, ?_, ?_⟩, hs.2.2, ?_⟩
